@@ -64,7 +64,12 @@ def outcome_of(thunk):
     try:
         v = thunk()
     except BaseException as e:  # noqa
-        return ["exc", canon(e)], e
+        # drop the traceback: it would keep frames (and generators they hold)
+        # alive in a cycle until the next collection, in this twin only
+        e.__traceback__ = None
+        c = canon(e)
+        e = None
+        return ["exc", c], None
     return ["ret", canon(v)], v
 
 
@@ -77,6 +82,8 @@ class Variant:
         self.gens = {}
         self.tooled = {}
         self.objs = {}
+        self.cycles = {}
+        self.limbo = []
 
 
 class Sim:
@@ -156,6 +163,12 @@ class Sim:
             base = 1000 * (self.opn + 1)
         env = self.env_for(v, tape, faults, base, box)
         out, raw = outcome_of(lambda: thunk(v, env))
+        return {"out": out, "raw": raw, "env": env}
+
+    def finish(self, vn, r):
+        """Close the operation for one variant (after the global collect step)."""
+        env = r["env"]
+        r["log"] = list(env.log)
         for k, kind, f in env.fired:
             if vn == "sys":
                 d = self.stats["faults_fired"]
@@ -163,9 +176,9 @@ class Sim:
         if vn == "sys":
             for kind, n in env.kinds.items():
                 self.stats["kinds"][kind] = self.stats["kinds"].get(kind, 0) + n
-        if has_absent(out) or any(has_absent(e) for e in env.log):
+        if has_absent(r["out"]) or any(has_absent(e) for e in r["log"]):
             self.absent_seen.append([vn, self.opn])
-        return {"out": out, "log": list(env.log), "raw": raw, "env": env}
+        return r
 
     def call_thunk(self, op):
         """Build thunk for a 'call' op: {"fn": qual|inst.meth, "nargs": n, "kw": [names]}"""
@@ -195,6 +208,12 @@ class Sim:
                 target = v.tooled.get(op["fn"]) or self.lookup(v, op["fn"])
                 args = [env._fresh() for _ in range(op.get("nargs", 0))]
                 v.gens[g] = target(*args)
+                if op.get("cycle"):
+                    # a reference cycle through the generator: dropping it later
+                    # leaves finalisation to the collector (S3)
+                    holder = [v.gens[g]]
+                    holder.append(holder)
+                    v.cycles[g] = holder
                 return None
             it = v.gens.get(g)
             if it is None:
@@ -210,10 +229,24 @@ class Sim:
             if kind == "gen_close":
                 return it.close()
             if kind == "gen_drop":
+                # (finalisation happens in the engine's global collect step,
+                # or at the 'gc' operation if the generator sits in a cycle)
                 del v.gens[g]
                 it = None
+                if g in v.cycles:
+                    v.limbo.append(v.cycles.pop(g))
                 return None
             raise HarnessError(kind)
+
+        return thunk
+
+    def gc_thunk(self, op):
+        import gc
+
+        def thunk(v, env):
+            n = len(v.limbo)
+            v.limbo.clear()
+            return n
 
         return thunk
 
